@@ -8,5 +8,5 @@ CONSTANTS
   EditThresholds <- None
 INIT TInit
 NEXT TNext
-INVARIANTS AcceptedIsValid
+INVARIANTS NoPanic AcceptedIsValid
 POSTCONDITION Accepted
